@@ -293,6 +293,29 @@ def rule_prec(crate, repo):
             out.ok("assoc:parse_binop:left-fold", f, pb["line"], "parse_binop matches operators in a loop and nests the accumulated expression as lhs")
         else:
             out.violation("assoc:parse_binop:left-fold", f, pb["line"], "parse_binop does not fold operators in a loop")
+    # ---- operands parsed at a LOOSER level must be bracketed: a level function may hand an operand to a shallower
+    # level (primary -> expression inside parentheses, list/struct/argument/interpolation elements, the `if` and
+    # `then` parts of a conditional) only when a closing token is matched after it; an unbracketed up-call lets the
+    # operand swallow operators that bind looser than the calling level
+    CLOSERS = {"RightParen", "RightBracket", "RightCurly", "Comma", "Then", "Else", "StringInterpolationSpecifiers", "StringInterpolationMiddle", "StringInterpolationEnd"}
+    n_up = 0
+    for nm, lv in sorted(levels.items()):
+        if nm not in depth:
+            continue
+        k = 0
+        for i, e in enumerate(lv.events):
+            if e[1] != "operand" or not e[2] or e[2] not in depth or depth[e[2]] >= depth[nm]:
+                continue
+            n_up += 1
+            later = [x for x in lv.events[i + 1:] if x[1] == "match"]
+            key = "upcall:%s->%s#%d" % (nm, e[2], k)
+            k += 1
+            line = e[0][0]
+            if later and (later[0][2] & CLOSERS):
+                out.ok(key, f, line, "operand parsed at the looser level `%s` is closed by %s" % (e[2], "/".join(sorted(later[0][2] & CLOSERS))))
+            else:
+                out.violation(key, f, line, "`%s` (depth %d) parses an operand with the looser level `%s` (depth %d) and no closing token follows: that operand swallows every operator that binds looser than `%s`, contradicting the documented precedence (e.g. `if c then a else b |> f`)" % (nm, depth[nm], e[2], depth[e[2]], nm))
+    out.floor("bracketed_upcalls", n_up, 4)
     out.analysed = {"doc_rows": len(rows), "levels": len(levels), "chain_depth": max(depth.values()) if depth else 0, "ordered_pairs": n_pairs, "token_spellings": len(tokmap)}
     out.floor("doc_rows", len(rows), 17)
     out.floor("levels", len(depth), 17)
